@@ -2,14 +2,16 @@
 
 Python side under contract: predict dispatches on the criterion; _predict_reglin gives every row [X[r], 1] . betas_[leaf(r)] (loop
 invariant); fit creates the compiled criterion for the given name, restores the name on every exit and fits the per-leaf regressions
-iff criterion == 'mselin'.  The Cython criteria themselves (.pyx) are outside the Python executor: bounded stand-in on the compiled code
-against an exact rational oracle."""
+iff criterion == 'mselin'.  The compiled criteria 'simple' (slow and fast) and their common base are verified on the text extracted
+mechanically from the .pyx files (contracts/_criteria.py): node value = weighted mean, impurities = weighted mean squared residual of the
+constant fit, children impurities, weights, improvement and its proxy.  'mselin' (LAPACK) stays bounded."""
 import z3
 from pyvc.api import Contract, contract
 from pyvc.values import Obj, NdArr, Opaque, z
 from pyvc import models
 from pyvc.npmodel import getitem as np_getitem
 from contracts import C02 as _c02
+from contracts import _criteria            # the compiled criteria, verified on the text extracted from the .pyx files
 
 F = "mlinsights/mlmodel/piecewise_tree_regression.py"
 PARAMS = dict(criterion="mselin", splitter="best", max_depth=None, min_samples_split=2, min_samples_leaf=1, min_weight_fraction_leaf=0,
@@ -133,10 +135,20 @@ class Fit(_c02.PiecewiseTreeFit):
 contract(_c02.PiecewiseTreeFit.key, "C09")(Fit)
 
 META = dict(
-    level="proof", assumptions=["A1", "A2", "A6", "A7", "A9"],
+    level="proof", assumptions=["A1", "A2", "A6", "A7", "A9"], lean_files=["lemmas/Counting.lean"],
     trusted=["predict_leaves and _fit_reglin are ASSUMED on the Python side (sparse decision_path; LinearRegressorCriterion.create / node_beta are compiled code)",
-             "numpy.dot of two vectors is a function of their entries (ghost dot1); DecisionTreeRegressor.fit/predict are scikit-learn's"],
-    not_applicable=["the compiled criteria (.pyx: prefix sums, LAPACK dgelss, children impurities, improvement) and the scikit-learn tree builder (max_depth, "
-                    "min_samples_leaf): outside the Python executor - bounded stand-in on the compiled code against an exact rational oracle",
-                    "C memory safety of the criterion buffers"],
+             "numpy.dot of two vectors is a function of their entries (ghost dot1); DecisionTreeRegressor.fit/predict are scikit-learn's",
+             "the compiled criteria 'simple' (SimpleRegressorCriterion, SimpleRegressorCriterionFast) and their common base are verified on the "
+             "Python-subset text EXTRACTED MECHANICALLY from the .pyx files on every run (pyvc/pyxstrip.py: cimports, C types of signatures and "
+             "locals, casts, decorators, GIL / exception specifications are dropped; address-of a local becomes a one-element cell; NULL -> None; "
+             "a C int function falling off its end returns 0).  Assumed when reading that text as Python: C double / integer arithmetic is "
+             "mathematical, allocation succeeds, no aliasing between the buffers; every index is CHECKED by the executor although the C code "
+             "disables bounds checks.  The same text is executed by CPython against the compiled extension in the bounded stand-in.",
+             "object invariant of an initialised criterion is relative to the sample order given to init (the splitter's later re-sorting of that "
+             "order is the recorded known finding of the fast criterion)",
+             "lemma schemas of the ghost range sum psum (empty, step, split, congruence / frame, weighted variance) are proved in lemmas/Counting.lean; "
+             "the instantiation by pyvc is trusted"],
+    not_applicable=["criterion 'mselin' (LinearRegressorCriterion: LAPACK dgelss through raw pointers) and the scikit-learn tree builder (max_depth, "
+                    "min_samples_leaf): bounded stand-in on the compiled code against an exact rational oracle",
+                    "C memory safety beyond index ranges (lifetime of the buffers, __dealloc__)"],
 )
